@@ -272,7 +272,8 @@ func runCycle(s cycScn) (line string) {
 		mu.Unlock()
 		needsMid := f.needs()
 		if c.limiter != nil {
-			c.limiter.capacity.Store(4294967295)
+			// far above any backlog, and small enough for capacity/1000*ms to stay inside uint32 for every interval used
+			c.limiter.capacity.Store(1000000000)
 		}
 		f.flush()
 		synctest.Wait()
